@@ -284,7 +284,7 @@ def fn_text(fn, root):
 
 
 OPAQUE_TAIL = {"StringConstructionFailed", "InterpolateStringParseFailed", "PrintUtf8",
-               "ThisUtf8", "CyclicValue"}
+               "ThisUtf8"}
 
 
 def expected(outcome, path, locfn=plain_loc):
